@@ -133,7 +133,7 @@ Definition typed_ok_b (p : param) : bool :=
       match p_dims p with
       | [] => false
       | [w] => if w =? 0 then nil_b (p_strs p) else match p_strs p with [s0] => str_ok_b w s0 | _ => false end
-      | w :: rest => (nlen (p_strs p) =? prodN rest) && forallb (str_ok_b w) (p_strs p)
+      | w :: rest => (nlen (p_strs p) =? prodN rest) && forallb (str_ok_b w) (p_strs p) && (loop_cost rest 1 <=? LIMC)
       end
   | TNone => false
   end.
@@ -148,7 +148,8 @@ Proof.
       * left. split; [lia|apply nil_b_ok; exact H2].
       * right. split; [lia|]. destruct (p_strs p) as [|s0 [|s1 t]]; try discriminate.
         exists s0. split; [reflexivity|apply str_ok_b_ok; exact H2].
-    + apply andb_prop in H2. destruct H2 as [Ha Hb]. split; [lia|exact (forallb_Forall _ _ _ _ (str_ok_b_ok w) Hb)].
+    + apply andb_prop in H2. destruct H2 as [H2 Hc]. apply andb_prop in H2. destruct H2 as [Ha Hb].
+      split; [lia|]. split; [exact (forallb_Forall _ _ _ _ (str_ok_b_ok w) Hb)|lia].
   - apply andb_prop in H. destruct H as [H H4]. apply andb_prop in H. destruct H as [H H3]. apply andb_prop in H. destruct H as [H1 H2].
     split; [refine (forallb_Forall _ _ _ _ _ H1); intros x Hx; unfold int8_b in Hx; unfold int8; lia|].
     split; [lia|]. split; apply nil_b_ok; assumption.
